@@ -5,7 +5,7 @@ from vlib.core import Machinery
 
 LEVEL = "model_checking"
 
-SAFETY_MUTANTS = ["RedoSkipDrain", "DropSafeOld", "NoIngest", "DeadDropNoCount", "LoseReadAhead", "SpoolDropNoCount", "DropNoCount"]
+SAFETY_MUTANTS = ["RedoSkipDrain", "DropSafeOld", "KsCapRotate", "NoIngest", "DeadDropNoCount", "LoseReadAhead", "SpoolDropNoCount", "DropNoCount"]
 
 
 def run(ctx):
@@ -27,7 +27,7 @@ def run(ctx):
     r = destlib.mc(ctx, "Destination_c07.cfg", dict(tiny, FixRedoWaits=False), expect={"Conservation", "QuiescentBound"}, count=False)
     # (DeadDropNoCount: a send that finds In full on a connection that died after the loop-top aliveness check returns
     # without counting -- the interleaving the dead-send scenarios below force on the real code)
-    for m in (SAFETY_MUTANTS[:4] if q else SAFETY_MUTANTS):
+    for m in (SAFETY_MUTANTS[:5] if q else SAFETY_MUTANTS):
         destlib.mc(ctx, "Destination_c07.cfg", dict(tiny, Mutant=m), expect={"Conservation", "QuiescentBound", "Conservation_steady"}, count=False)
 
     # the spool is the disk queue: a backlog that spans several spool files is read back by a reader that is files behind
